@@ -20,7 +20,7 @@ import ast
 from engine.cfg import call_name, cfg_of
 from engine.errors import AnalysisError
 from engine.repo import walk_no_nested
-from engine.util import calls_in, unparse
+from engine.util import calls_in, unparse, xsrc
 
 ID = 'C19'
 PV = 'sdc11073.provider.providerimpl.SdcProvider'
@@ -201,13 +201,13 @@ def run(ctx):  # noqa: C901, PLR0912, PLR0915
     ctx.floor('C19.R1', n_plain, 4, 'plaintext sites')
     # advertised addresses
     gx = repo.func(f'{PV}.get_xaddrs')
-    ctx.ob('C19.R1', 'xaddrs', "f'{self._urlschema}://" in unparse(gx.node) and 'http:' not in unparse(gx.node).replace('{self._urlschema}', ''),
+    ctx.ob('C19.R1', 'xaddrs', "f'{self._urlschema}://" in xsrc(gx) and 'http:' not in xsrc(gx).replace('{self._urlschema}', ''),
            'the discovery XAddrs use the scheme chosen from the TLS state', fi=gx)
     ss = repo.func(f'{PV}._start_services')
     ok = any(call_name(c) == 'SplitResult' and c.args and unparse(c.args[0]) == 'self._urlschema' for c in calls_in(ss.node))
     ctx.ob('C19.R1', 'base urls', ok, 'the provider base urls (hosted services, subscription manager) use that scheme', fi=ss)
     sr = repo.func('sdc11073.provider.subscriptionmgr_base.SubscriptionsManagerBase._mk_subscribe_response_message')
-    ctx.ob('C19.R1', 'subscription manager address', "f'{base_urls[0].scheme}://{base_urls[0].netloc}/" in unparse(sr.node),
+    ctx.ob('C19.R1', 'subscription manager address', "f'{base_urls[0].scheme}://{base_urls[0].netloc}/" in xsrc(sr),
            'the subscription manager address in SubscribeResponse is built from the provider base url', fi=sr)
     hs = repo.module('sdc11073.provider.dpwshostedservice')
     lits = [n for n in ast.walk(hs.tree) if isinstance(n, ast.JoinedStr) and n.values and isinstance(n.values[0], ast.Constant)
@@ -216,7 +216,7 @@ def run(ctx):  # noqa: C901, PLR0912, PLR0915
            'hosted service endpoint addresses are derived from the provider base urls, no literal scheme', where=hs.name,
            witness=[unparse(x) for x in lits])
     cb = repo.func(f'{CO}.base_url')
-    src = unparse(cb.node)
+    src = xsrc(cb)
     ctx.ob('C19.R1', 'consumer NotifyTo/EndTo base', 'urlparse(self._http_server.base_url)' in src and "f'{p.scheme}://" in src,
            'the consumer base url (NotifyTo / EndTo) takes its scheme from its HTTP server', fi=cb)
     mk = repo.func(f'{CO}._mk_subscription') if f'{CO}._mk_subscription' in repo.funcs else None
@@ -373,7 +373,7 @@ def run(ctx):  # noqa: C901, PLR0912, PLR0915
         'SSLContextContainer(client_context=client_ssl_context, server_context=server_ssl_context)'
     ctx.ob('C19.R5', 'container wiring', ok, 'the container returns the client context as client_context and the server '
            'context as server_context', fi=mc)
-    src = unparse(mc.node)
+    src = xsrc(mc)
     ok = 'ssl.SSLContext(ssl.PROTOCOL_TLS_CLIENT)' in src and 'ssl.SSLContext(ssl.PROTOCOL_TLS_SERVER)' in src
     ctx.ob('C19.R5', 'protocols', ok, 'client context uses PROTOCOL_TLS_CLIENT, server context PROTOCOL_TLS_SERVER', fi=mc)
     weak = []
